@@ -33,6 +33,10 @@ CHECKS = {
    technique='property-based testing (proptest operation histories) with enumerated crash states against a Vec<Vec<u8>> reference model',
    text='Generated append/truncate/retrieve/sync/reopen histories over FreezerFiles with tiny file-size limits; for every history the crash states of the un-synced tail (head data file x index cut independently to every length, missing/empty head file) are enumerated (exhaustively when the product is small), each re-opened and compared item by item with a Vec model, then used further and re-opened again. Fault enumeration is the right level because the crash-state space per history is finite and small while the history space is sampled.',
    note='Crash model is the statement\'s: byte-prefix cuts of the two files written since the last sync; no torn sectors. tmpfs scratch directory (fsync is a no-op there).'),
+ 'C13': dict(level='exploration', ref='DESIGN.md §2 C13',
+   technique='stateful property-based testing on a mine-mode node: templates are sealed and submitted to the same node (must be accepted) and rebuilt bit-for-bit by the reference model from their free fields',
+   text='A generated sequence of pool submissions (chains, diamonds), template requests, mined templates, competing side blocks (uncles, reorgs) and clock advances drives a real node with a block assembler; every template on the current tip is converted the way a miner does and (a) submitted to the node\'s own pipeline, (b) rebuilt by the reference model from its timestamp, uncles, proposals, transactions and cellbase witness: the two blocks must be identical, which pins epoch, target, DAO field, reward amount and lock, chain-root extension and all roots; committed transactions must be committable in the window, parents first, conflict free.',
+   note='update_interval_millis = 0 (the assembler handles notifications in order); the per-request RPC limits are counted, not judged (the statement speaks of consensus limits). Candidate finding "template older than median time" was analysed and dismissed (with an odd median window at most 18 of 37 timestamps can exceed the tip\'s).'),
  'C15': dict(level='exploration', ref='DESIGN.md §2 C15',
    technique='schema-driven property-based testing: independent molecule interpreter (generator + strict/compatible verifier) vs generated code, JSON round trips, hash-commitment mutation relations',
    text='A parser/interpreter of the repository .mol schemas written in the harness generates values and canonical bytes for all 127 types and decides canonicity of arbitrary/mutated bytes; the generated Rust types must agree. JSON conversions round-trip, and hash commitments are checked by single-field mutations against hashes recomputed from the documented definitions.',
